@@ -7,9 +7,12 @@ engine file, missing weather directory; reset; Config.get(); proxy read; assignm
 in `weather`, in `emissions`) up to the depth bound, every history replayed from a clean sandbox on
 the real Config / ConfigProxy and compared step by step and by a full observation with a
 reference machine Unconfigured | Configured(expected effective values); (2) a breadth-first
-exploration over the 20-event full alphabet (adds malformed TOML, wrong type at top level, explicit
-search path that hides the default performance model, assignment through Config.get()) to depth 8,
-deduplicated by (reference-machine state, implementation discriminators, last k events).
+exploration over the 23-event full alphabet (adds malformed TOML, wrong type at top level, explicit
+search path that hides the default performance model, assignment through Config.get(), and one valid
+load for each remaining documented way of supplying settings: explicit search path as keyword
+argument, explicit search path inside the configuration file, data_path_overrides) to depth 8,
+deduplicated by (reference-machine state, implementation discriminators, last k events). Every
+load kind, valid or not, is thereby attempted in the unconfigured and in every configured state.
 """
 
 from __future__ import annotations
@@ -40,6 +43,7 @@ ASSUMPTIONS = [
     'assignment through the proxy while nothing is loaded is executed but its own outcome is not judged '
     '(the following observation is)',
     'paths are compared after resolution: the configured name found as given or first on the search path',
+    '`path` / `data_path_overrides` are compared only for loads that name them (then they are overlay values)',
     'deduplicated exploration merges histories that agree on reference-machine state, on the implementation '
     'discriminators (singleton set?, proxy attributes, fields set, cached species set) and on their last k events; '
     'the only state of the code under test is the module global and the object it refers to',
